@@ -254,5 +254,8 @@ def corr_cases(run, todo, name='fit', shard=40):
                           shape=list(c['src'].shape), note=c.get('note', ''),
                           src=np.where(np.isnan(c['src']), -9999, c['src']).tolist(),
                           ref=np.where(np.isnan(c['ref']), -9999, c['ref']).tolist()))
-    failing, nt = run.corr(name, 'Corr.CheckC01', cases, shard=shard, both='check_nt')
+    # evaluation cost of a case inside Coq ~ pixels x kernel area (x 1.5 with in-painting): ~2000 such units per second
+    def cost(c):
+        return c[8] * c[9] * c[1] * c[2] * (1.5 if c[4] else 1.0)
+    failing, nt = run.corr(name, 'Corr.CheckC01', cases, shard=shard, both='check_nt', cost=cost, budget=150000.0)
     return [metas[k] for k in failing], nt, len(cases)
